@@ -750,10 +750,9 @@ impl RefZ80 {
                 if op == 0x76 {
                     self.halted = true;
                     self.pc = self.pc.wrapping_sub(1);
+                    // DD/FD in front of HALT is an ordinary ignored prefix: the CPU halts on the 0x76
+                    // byte, idles with one 4-T fetch per step and resumes behind the HALT
                     info.halt = true;
-                    if idx != Idx::Hl {
-                        info.ambiguous = Some("prefixed HALT");
-                    }
                 } else if z == 6 {
                     let a = self.ea(bus, idx);
                     let v = bus.rd(a);
